@@ -197,7 +197,8 @@ for _p, _rules in (("C01", ["CW-ALLOC-INIT", "CW-DEFER-WRAPPER"]), ("C02", ["EBR
                    # "user tags are preserved exactly and truncated to the alignment bits" (C08/C09) is the bit-level round trip;
                    # "the reference upgrade returns obeys C02" (C05) includes the signature that ties it to the guard
                    ("C08", ["BIT-TAGGED"]), ("C09", ["BIT-TAGGED"]), ("C05", ["TY-SIG"]),
-                   ("C06", ["MOD-AGING"]), ("C15", ["EBR-TUNABLES"]), ("C04", ["EBR-TUNABLES"]), ("C20", ["EBR-TUNABLES"]),
+                   # "nodes still referenced from elsewhere are skipped and survive": the cascade tells by the count alone
+                   ("C06", ["MOD-AGING", "OWN-BALANCE", "OWN-PRIMITIVES"]), ("C15", ["EBR-TUNABLES"]), ("C04", ["EBR-TUNABLES"]), ("C20", ["EBR-TUNABLES"]),
                    ("C13", ["EBR-INIT"]), ("C14", ["EBR-INIT"]), ("C16", ["EBR-INIT"]), ("C18", ["EBR-INIT"]), ("C20", ["EBR-INIT"])):
     registry.PROPS[_p]["rules"] += [x for x in _rules if x not in registry.PROPS[_p]["rules"]]
 
